@@ -9,6 +9,14 @@ CHECKS={
    note="Trusted: go/ssa, the slipvc SSA->SMT translation, the solvers, library code outside the module; callees that are not inlined are abstracted by havoc; nil dereference, termination and allocation bounds are not covered (the 'bounded time' clause is not decided).",
    ref="DESIGN 3 C09, 2.4 family S"),
 }
+CHECKS["C05"]=dict(cat="proof",tech="contract-based deductive verification: ghost exact value vs two's-complement machine value on every fixnum result of the numeric built-ins, contract on NormalizeNumber, safety obligations; WP over go/ssa; z3",
+   text="For the arithmetic built-ins (+ - * / floor ceiling truncate round mod rem abs 1+ 1- incf decf gcd lcm ash isqrt expt) every 64-bit integer that is boxed into a Lisp object, returned, stored or passed on must equal the mathematical value of the expression that computed it, for all operand values; NormalizeNumber is proved to return both operands in one representation and fixnum pairs unchanged. Code that tests for overflow before using a result verifies; silent wrap-around fails the obligation.",
+   note="math/big is assumed exact; float branches, bignum/ratio functional correctness and comparison coherence are not yet under contract (listed in the evidence); replay oracle = math/big on the boundary grid (harness/arith).",
+   ref="DESIGN 3 C05, family I")
+CHECKS["C20"]=dict(cat="proof",tech="contract-based deductive verification: sequence postconditions on Stash.clear over the slice/heap model (copy, reslice, loop frame invariants found by Houdini); WP over go/ssa; z3",
+   text="Stash.clear (shared by History) is proved, for all lengths and index arguments, to remove exactly the forms numbered start..end and keep every other form in order (length, prefix, suffix and no-op frame clauses), with a must-fail canary.",
+   note="Only the in-memory clause is under contract so far; file-system crash points and restart decoding are not yet covered (see DESIGN 3 C20).",
+   ref="DESIGN 3 C20")
 NA={}
 m=json.load(open('/verif/MANIFEST.json'))
 m['checks']=[]
